@@ -19,7 +19,7 @@ pub fn print_child(threads: usize, calls: usize, stream: &str) {
                 let mut r = crate::rng::Rng::new(t as u64 * 7919);
                 for c in 1..=calls {
                     let pad = "x".repeat(r.below(40));
-                    let kind = (c + t) % 7;
+                    let kind = (c + t) % 9;
                     // calls that end with a newline of their own (println!, a "\n" in the format string, writeln!, a record ending in
                     // "\n") announce 4 fragments: the newline right after the third is the fourth and belongs to the same call
                     let n = if matches!(kind, 0 | 1 | 2 | 4) { 4 } else { 3 };
@@ -44,6 +44,29 @@ pub fn print_child(threads: usize, calls: usize, stream: &str) {
                             let a = format!("{}\x1b[3", frag(t, c, 1, 3, &big1));
                             let b = format!("1m{}", frag(t, c, 2, 3, &big2));
                             if stream == "stdout" { anstream::print!("{}{}{}", a, b, d) } else { anstream::eprint!("{}{}{}", a, b, d) }
+                        }
+                        7 => {
+                            // a stream built over a BORROWED process stream locks it per call just the same
+                            if stream == "stdout" {
+                                let mut raw = std::io::stdout();
+                                let mut s = anstream::AutoStream::auto(&mut raw);
+                                write!(s, "{}{}{}", a, b, d).unwrap();
+                            } else {
+                                let mut raw = std::io::stderr();
+                                let mut s = anstream::AutoStream::auto(&mut raw);
+                                write!(s, "{}{}{}", a, b, d).unwrap();
+                            }
+                        }
+                        8 => {
+                            // ... and so does one over a boxed process stream; write_all of a record with sequences in the middle
+                            let rec = format!("{a}{b}{d}");
+                            if stream == "stdout" {
+                                let mut s = anstream::AutoStream::auto(Box::new(std::io::stdout()));
+                                s.write_all(rec.as_bytes()).unwrap();
+                            } else {
+                                let mut s = anstream::AutoStream::auto(Box::new(std::io::stderr()));
+                                s.write_all(rec.as_bytes()).unwrap();
+                            }
                         }
                         3 => {
                             // write_all of one buffer: a line, then a long unterminated tail (longer than std's line buffer)
